@@ -15,7 +15,12 @@ def run(seed):
     own = seed.split("-")[0]
     todo = sorted({p for p, c in props.items() if p == own or any(pkg_of(f) in touched for f in c["functions"])})
     res = {}
+    # the seed's own property first; the others only if that check does not report the change
+    # (SEEDRUN_ALL=1 runs every relevant check regardless)
+    todo = [own] + [p for p in todo if p != own]
     for p in todo:
+        if p != own and res.get(own, {}).get("detected") and not os.environ.get("SEEDRUN_ALL"):
+            continue
         out = subprocess.run([os.path.join(V, "bin", "mutcheck"), p, patch], capture_output=True, text=True).stdout
         obl = re.findall(r"^  obligation (\S+)", out, re.M)
         res[p] = {"detected": "MUTCHECK %s patch.diff: detected" % p in out, "obligations": sorted(set(obl)),
@@ -26,7 +31,7 @@ def run(seed):
             "origin": "fresh sub-agent given only the property text and a scratch worktree of the pinned commit",
             "confirmed": open(os.path.join(d, "confirm.log")).read().splitlines(),
             "ran": ["tools/seedverify.sh seeded/%s (demo passes without the patch, fails with it, patch builds, existing suite unchanged)" % seed,
-                    "bin/mutcheck <property> seeded/%s/patch.diff for: %s" % (seed, " ".join(todo))],
+                    "bin/mutcheck <property> seeded/%s/patch.diff for: %s" % (seed, " ".join(res.keys()))],
             "checks": res,
             "detected_by": sorted(p for p, r in res.items() if r["detected"])}
     json.dump(meta, open(os.path.join(d, "meta.json"), "w"), indent=1)
